@@ -373,6 +373,36 @@ Proof.
   - apply IH; auto. intros z Hz1 Hz2. apply (Hd z); [right; exact Hz1|exact Hz2].
 Qed.
 
+Lemma index_from_ub {A} i (l : list A) p : In p (index_from i l) -> fst p < i + Nlen l.
+Proof.
+  revert i. induction l as [|a l IH]; intros i; cbn [index_from In]; [tauto|].
+  unfold Nlen. cbn [length]. rewrite Nat2N.inj_succ.
+  intros [<-|H]; [cbn; lia|]. apply IH in H. unfold Nlen in H. lia.
+Qed.
+
+(* the tasks of different deployment attempts have different names *)
+Lemma att_nodup e n (trs : list (N * role)) (la : list N) :
+  NoDup la -> NoDup (map fst trs) -> (forall ir, In ir trs -> fst ir < n) ->
+  NoDup (map t_id (flat_map (fun a => map (att_task e n a) trs) la)).
+Proof.
+  intros Hla Htr Hub. induction la as [|a la IH]; cbn [flat_map map]; [constructor|].
+  inversion Hla as [|y m Hnin Hnd']; subst. rewrite map_app. apply nodup_app.
+  - rewrite map_map.
+    rewrite (map_ext _ (fun ir : N * role => tid_of e (fst ir + a * n))) by (intro; reflexivity).
+    rewrite <- (map_map fst (fun i => tid_of e (i + a * n))).
+    apply FinFun.Injective_map_NoDup; [|exact Htr].
+    intros x y E. unfold tid_of in E. injection E as E. lia.
+  - apply IH, Hnd'.
+  - intros k H1 H2. apply in_map_iff in H1. destruct H1 as [t1 [E1 T1]].
+    apply in_map_iff in T1. destruct T1 as [ir1 [<- I1]].
+    apply in_map_iff in H2. destruct H2 as [t2 [E2 T2]].
+    apply in_flat_map in T2. destruct T2 as [a2 [A2 T2]].
+    apply in_map_iff in T2. destruct T2 as [ir2 [<- I2]].
+    cbn [att_task t_id] in E1, E2. subst k. unfold att_id, tid_of in E2. injection E2 as E2.
+    assert (a2 <> a) by (intro; subst; contradiction).
+    pose proof (Hub ir1 I1). pose proof (Hub ir2 I2). nia.
+Qed.
+
 (* the state right after the environment was inserted and its tasks were launched *)
 Lemma inv_launch s e d x new :
   inv s -> In (e, d) (s_snaps s) -> e_id x = e ->
@@ -566,19 +596,19 @@ Proof.
   destruct (N.eqb (c_fail c) 6).
   { (* partial deployment failure: the last attempt's tasks enter the roster unowned *)
     set (xe := set_estate ES_ERROR (leave_upd ES_STANDBY (leave_upd ES_STANDBY x0))).
-    set (last := if acq_roster_unconditional then _ else []).
+    set (last := flat_map _ roster_attempts).
     destruct (create_tail xe _ [] _) as [s2 u2] eqn:Ec. intro H; injection H as <- <-.
     apply create_tail_good in Ec. destruct Ec as [G Ecm]. change (e_id xe) with e in G.
     assert (Hlast : forall t, In t last -> t_owner t = None /\ fst (t_id t) = e).
-    { unfold last. destruct acq_roster_unconditional; [|intros t []]. intros t Ht.
+    { unfold last. intros t Ht. apply in_flat_map in Ht. destruct Ht as [a [_ Ht]].
       apply in_map_iff in Ht. destruct Ht as [ir [<- _]]. split; reflexivity. }
     assert (Hnd : NoDup (map t_id last)).
-    { unfold last. destruct acq_roster_unconditional; [|constructor]. rewrite map_map.
-      rewrite (map_ext _ (fun ir : N * role => tid_of e (fst ir + 2 * Nlen (c_roles c)))) by (intro; reflexivity).
-      rewrite <- (map_map fst (fun i => tid_of e (i + 2 * Nlen (c_roles c)))).
-      apply FinFun.Injective_map_NoDup.
-      - intros a b E. unfold tid_of in E. injection E as E. lia.
-      - unfold task_iroles, iroles. apply nodup_filter_map. apply index_from_nodup. }
+    { unfold last. apply att_nodup.
+      - unfold roster_attempts. destruct acq_roster_retry, acq_roster_unconditional; cbn [app];
+          repeat constructor; cbn; intuition discriminate.
+      - unfold task_iroles, iroles. apply nodup_filter_map. apply index_from_nodup.
+      - intros ir Hir. unfold task_iroles, iroles in Hir. apply filter_In in Hir. destruct Hir as [Hir _].
+        apply index_from_ub in Hir. cbn [set_bound e_roles x0] in Hir. lia. }
     assert (Im : inv (mkSt (s_envs s0 ++ [xe]) (s_roster s0 ++ last) (s_snaps s0))).
     { apply (inv_launch_unowned s e snapdets xe last I Ea eq_refl Hnd Hlast). }
     split; [eapply good_inv; eauto|].
